@@ -149,3 +149,42 @@ Example poly_run_example :
   fst (poly_run true false [] [[int; c 2]; [int; c 2]; [num; c 2]; [int; c 3]; [int; c 2]]) = [0; 0; 1; 2; 0]%nat /\
   fst (poly_run false false [] [[int; c 2]; [int; c 2]; [num; c 2]; [int; c 3]; [int; c 2]]) = [0; 0; 1; 0; 0]%nat.
 Proof. vm_compute. auto. Qed.
+
+(* Comptime values reach poly_args_matches as Lua values compared with `~=`: the model's value ids are
+   ==-classes.  Full-strength statement over RAW values (cls maps a raw value to its ==-class): two calls
+   that differ in a raw comptime value get distinct specialisations.  It fails as soon as two raw values
+   share a class - 0.0 and -0.0 do. *)
+Definition raw_call (cls : Z -> Z) (ty raw : Z) : list parg := [mkParg ty false true true (Some (cls raw))].
+Definition distinct_raw_values_distinct_specialisations (cls : Z -> Z) : Prop :=
+  forall ty r r' i j ev1 ev2,
+    r <> r' ->
+    eval_poly true false [] (raw_call cls ty r) = (i, ev1) ->
+    eval_poly true false ev1 (raw_call cls ty r') = (j, ev2) -> i <> j.
+Theorem lua_equal_values_share_refuted_lemma cls :
+  (exists r r', r <> r' /\ cls r = cls r') -> ~ distinct_raw_values_distinct_specialisations cls.
+Proof.
+  intros (r & r' & N & E) F.
+  destruct (eval_poly true false [] (raw_call cls 2 r)) as [i ev1] eqn:E1.
+  destruct (eval_poly true false ev1 (raw_call cls 2 r')) as [j ev2] eqn:E2.
+  apply (F 2 r r' i j ev1 ev2 N E1 E2).
+  unfold raw_call in *. rewrite <- E in E2.
+  pose proof (polyeval_same_args_reuse_lemma true [] _ _ _ E1) as S. rewrite S in E2. congruence.
+Qed.
+(* and with an injective class map (no two distinguishable values are ==) the statement holds *)
+Lemma get_poly_eval_raw cls ty r r' :
+  get_poly_eval true [raw_call cls ty r] (raw_call cls ty r') 0 = if cls r =? cls r' then Some 0%nat else None.
+Proof.
+  unfold raw_call, get_poly_eval, args_match, arg_match; cbn [a_type a_is_attr a_type_comptime a_comptime a_value zopt_eqb].
+  rewrite Z.eqb_refl. cbn. destruct (cls r =? cls r'); reflexivity.
+Qed.
+Theorem distinct_raw_values_lemma cls :
+  (forall r r', cls r = cls r' -> r = r') -> distinct_raw_values_distinct_specialisations cls.
+Proof.
+  intros Inj ty r r' i j ev1 ev2 N E1 E2.
+  assert (A : eval_poly true false [] (raw_call cls ty r) = (0%nat, [raw_call cls ty r])) by reflexivity.
+  rewrite A in E1. inversion E1; subst; clear E1.
+  unfold eval_poly in E2. rewrite get_poly_eval_raw in E2.
+  destruct (cls r =? cls r') eqn:Q.
+  - apply Z.eqb_eq in Q. apply Inj in Q. contradiction.
+  - inversion E2; subst. simpl. discriminate.
+Qed.
